@@ -121,6 +121,7 @@ def tok(name, value, kind='t'):
         'vsn': len(vs),
         'ci': ci, 'civ': civ,           # Python int(value, 10) succeeds / its value (saturated to int32)
         'v1': v.startswith('1'),
+        'vs1': vs.startswith('1'),
         'u8': u8,
     }
 
